@@ -580,4 +580,57 @@ theorem outOf_perm (ns : List (Nat × NoteRec)) : (outOf (streamT ns)).Perm (ns.
   have := List.filter_append_perm (fun p : Nat × NoteRec => isZero p.2) ns
   exact (List.perm_append_comm).trans this
 
+-- ------------------------------------------------------------------ tempo and signature events are skipped
+
+def isNoteMsg : Int × Msg → Bool
+  | (_, .noteOn _ _ _) => true
+  | (_, .noteOff _ _ _) => true
+  | _ => false
+
+theorem pstep_skip (s : PState) (e : Int × Msg) (h : isNoteMsg e = false) : pstep s e = s := by
+  obtain ⟨t, m⟩ := e
+  cases m <;> simp_all [isNoteMsg, pstep]
+
+theorem foldl_pstep_filter (l : List (Int × Msg)) (s : PState) :
+    l.foldl pstep s = (l.filter isNoteMsg).foldl pstep s := by
+  induction l generalizing s with
+  | nil => rfl
+  | cons e es ih =>
+    by_cases h : isNoteMsg e = true
+    · rw [List.filter_cons_of_pos h, List.foldl_cons, List.foldl_cons, ih]
+    · have h' : isNoteMsg e = false := by simpa using h
+      rw [List.filter_cons_of_neg h, List.foldl_cons, pstep_skip s e h', ih]
+
+/-- the readers skip everything that is not a note message -/
+theorem pairAbs_filter (l : List (Int × Msg)) : pairAbs l = pairAbs (l.filter isNoteMsg) := by
+  unfold pairAbs
+  rw [foldl_pstep_filter]
+
+theorem noteEvents_filter (notes : List NoteRec) :
+    (noteEvents notes).offs.filter isNoteMsg = (noteEvents notes).offs ∧
+    (noteEvents notes).zeros.filter isNoteMsg = (noteEvents notes).zeros ∧
+    (noteEvents notes).ons.filter isNoteMsg = (noteEvents notes).ons := by
+  refine ⟨?_, ?_, ?_⟩ <;> rw [List.filter_eq_self] <;> intro x hx
+  · simp only [noteEvents, List.mem_map] at hx
+    obtain ⟨n, _, rfl⟩ := hx
+    rfl
+  · simp only [noteEvents, List.mem_flatMap, List.mem_cons, List.not_mem_nil, or_false] at hx
+    obtain ⟨n, _, rfl | rfl⟩ := hx <;> rfl
+  · simp only [noteEvents, List.mem_map] at hx
+    obtain ⟨n, _, rfl⟩ := hx
+    rfl
+
+/-- a whole track: tempo / signature events around the note events of `notes` do not disturb the pairing -/
+theorem pairAbs_track (tempos metas : List (Int × Msg)) (notes : List NoteRec)
+    (ht : ∀ x ∈ tempos, isNoteMsg x = false) (hm : ∀ x ∈ metas, isNoteMsg x = false) :
+    pairAbs (trackOrder { noteEvents notes with tempos := tempos, metas := metas }) = pairAbs (encode notes) := by
+  rw [pairAbs_filter]
+  unfold trackOrder encode
+  rw [sortEv_filter]
+  obtain ⟨f1, f2, f3⟩ := noteEvents_filter notes
+  have e1 : tempos.filter isNoteMsg = [] := List.filter_eq_nil_iff.mpr (fun x hx => by simp [ht x hx])
+  have e2 : metas.filter isNoteMsg = [] := List.filter_eq_nil_iff.mpr (fun x hx => by simp [hm x hx])
+  simp only [List.filter_append, e1, e2, f1, f2, f3, List.nil_append]
+  simp [noteEvents, trackOrder]
+
 end C04P
